@@ -360,7 +360,7 @@ fn restore_entries(db: &mut Database, store: &mut Store) -> PersistenceResult<()
                 let value = v.value();
                 trace!("Read entry {key}={value:?}");
                 let path = parse_segments(&key)?;
-                store.insert(&path, value, true)?;
+                store.restore_entry(&path, value);
             }
         }
         Err(e) => match e {
